@@ -348,5 +348,26 @@ func Query(ms *yang.Modules, arg string) string {
 		e.Print(&pb)
 		fmt.Fprintf(&sb, "print: %d bytes\n", pb.Len())
 	}
+	// lookup on the statement trees (modules and submodules)
+	if arg != "" {
+		for _, set := range []map[string]*yang.Module{ms.Modules, ms.SubModules} {
+			keys := make([]string, 0, len(set))
+			for k := range set {
+				keys = append(keys, k)
+			}
+			sort.Strings(keys)
+			for _, k := range keys {
+				n, err := yang.FindNode(set[k], arg)
+				switch {
+				case err != nil:
+					fmt.Fprintf(&sb, "findnode %s in %s -> error\n", arg, k)
+				case n == nil:
+					fmt.Fprintf(&sb, "findnode %s in %s -> nil\n", arg, k)
+				default:
+					fmt.Fprintf(&sb, "findnode %s in %s -> %s %s\n", arg, k, n.Kind(), n.NName())
+				}
+			}
+		}
+	}
 	return sb.String()
 }
